@@ -17,12 +17,23 @@ import (
 	"time"
 )
 
-// hangTimeout is how long one execution of one script may take before the
-// worker declares a hang.  The slowest legitimate run (a C15 run with several
-// hundred faulted HTML renders) takes a few seconds on an idle machine; the
-// limit is two orders of magnitude above that so that a loaded machine can
-// never turn a slow run into a reported hang.
-const hangTimeout = 5 * time.Minute
+// hangTimeoutOf is how long one execution of one script may take before the
+// worker declares a hang.  Runs of most engines take milliseconds (the largest
+// tables: tens of milliseconds); 45 s is three orders of magnitude above that,
+// so that a loaded machine can never turn a slow run into a reported hang.  An
+// engine whose runs are legitimately slow says so (C15: several hundred
+// faulted renders of a tall table take seconds on an idle machine; 5 min).
+// A hang is reported only after it was confirmed in a fresh process with
+// three times this limit.
+func hangTimeoutOf(e Engine) time.Duration {
+	if u, ok := e.(interface{ Unwrap() Engine }); ok {
+		e = u.Unwrap()
+	}
+	if sr, ok := e.(interface{ HangTimeout() time.Duration }); ok {
+		return sr.HangTimeout()
+	}
+	return 45 * time.Second
+}
 
 // timedEngine wraps an engine so that every Exec is visible to the watchdog.
 type timedEngine struct {
@@ -97,6 +108,7 @@ func RunWorker(e Engine, tier string, batch uint64, lo, hi, stride int, deadline
 		cur, _ = os.Create(bitmapPath + ".cur")
 	}
 	var execStart int64 // unix nanos of the running execution, 0 = none
+	hangTimeout := hangTimeoutOf(e)
 	go func() {
 		for {
 			time.Sleep(2 * time.Second)
@@ -358,7 +370,7 @@ func RunCheck(o CheckOptions) int {
 					kind = "crash:" + strings.ReplaceAll(normalisePanic(line), " ", "-")
 				}
 				if b, rerr := os.ReadFile(bmPath + ".cur"); kind != "" && rerr == nil && len(b) == 8 {
-					deaths[k] = &death{kind: kind, idx: int(binary.LittleEndian.Uint64(b))}
+					deaths[k] = &death{kind: kind, idx: int(binary.LittleEndian.Uint64(b)), worker: k, stride: workers}
 					return
 				}
 				errs[k] = fmt.Sprintf("worker %d: %v\n%s", k, err, tail(stderr.String(), 4000))
@@ -446,6 +458,14 @@ func RunCheck(o CheckOptions) int {
 				n = x
 			}
 		}
+		for _, d := range deaths {
+			if d != nil && (d.kind == "hang" || d.kind == "deadlock") && n > 0 {
+				// serialised executions already stop for good (reported below); the
+				// parallel ones would only wait out the same hang
+				n = 0
+				tot.Extra["race_prong_skipped_because_serialised_executions_hang"] = 1
+			}
+		}
 		if n > 0 {
 			finds, stats, tr := RunRaceProng(o, e, n, workDir)
 			raceFinds = finds
@@ -474,7 +494,20 @@ func RunCheck(o CheckOptions) int {
 			continue
 		}
 		fmt.Printf("tabsim: a worker stopped with %s while executing run %d; confirming and minimising in fresh processes\n", d.kind, d.idx)
-		min := minimizeDeath(o.Exe, s, sig, filepath.Join(workDir, "death.json"))
+		min := minimizeDeath(o.Exe, s, sig, filepath.Join(workDir, "death.json"), hangTimeoutOf(e))
+		if min == nil {
+			// not alone: after the runs that worker had executed before it?  (a lock
+			// left held, a pool or cache left dirty by an earlier run)
+			var before []int
+			for j := d.worker; j < d.idx; j += d.stride {
+				before = append(before, j)
+			}
+			before = append(before, d.idx) // (the worker may have been executing it for the second time: determinism recheck)
+			min = deathWithPrelude(o.Exe, s, sig, filepath.Join(workDir, "death.json"), hangTimeoutOf(e), &Prelude{Batch: o.Seed, Tier: o.Tier, Indices: before})
+			if min != nil {
+				tot.Extra["violations_needing_a_prelude_of_earlier_runs"]++
+			}
+		}
 		if min == nil {
 			fmt.Fprintf(os.Stderr, "tabsim: HARNESS TROUBLE run %d does not %s when executed alone in a fresh process\n", d.idx, d.kind)
 			trouble = true
@@ -626,7 +659,7 @@ func RunReplay(path string, verbose bool) int {
 	}
 	if s.Expect != nil && isDeathSig(s.Expect.Signature) {
 		exe, _ := os.Executable()
-		got := execOutcome(exe, path, 3*hangTimeout)
+		got := execOutcome(exe, path, 3*hangTimeoutOf(e))
 		fmt.Printf("replay: property=%s seed=%d steps=%d outcome in a fresh process: %s\n", s.Property, s.Seed, s.NSteps(), got)
 		if s.Property+"/"+got == s.Expect.Signature {
 			fmt.Println("replay: REPRODUCED (same fatal outcome)")
